@@ -25,6 +25,10 @@ for dir in "$VERIF"/benign/*/; do
   [ "$suite" = pass ] || ok=0
   [ $ok = 1 ] && good=$((good+1)) || bad=$((bad+1))
   printf "%-40s %-6s %s\n" "$id" "$suite" "$codes"
+  R="$VERIF/benign_results.tsv"; touch "$R"
+  grep -v "^$id	" "$R" > "$W/results.new" || true
+  printf "%s\t%s\t%s\t%s\n" "$id" "$suite" "$(echo $codes)" "$(git -C "$VERIF" rev-parse --short HEAD 2>/dev/null)" >> "$W/results.new"
+  sort "$W/results.new" > "$R"
 done
 echo "benign: clean=$good alarms_or_broken=$bad"
 [ $bad = 0 ]
